@@ -29,6 +29,7 @@ def run(ctx):
     ctx.guard(normalise, ctx)
     ctx.guard(kwargs_rule, ctx)
     ctx.guard(cells, ctx)
+    ctx.guard(key_spelling, ctx)
     ctx.guard(typecase, ctx, ['xtuml.meta'], 'C10-TYPECASE')
     from . import c03 as _c03
     from .common import AssocModel as _AM
@@ -106,6 +107,46 @@ def cells(ctx):
                                else 'wholesale (keys as the other dictionary happens to spell them)'))
     if n < 3:
         raise AnalysisError('only %d writes of instance dictionaries found (expected the loader\'s two and Class.__setattr__)' % n)
+
+
+def key_spelling(ctx):
+    """an association names the attributes of two existing classes; everything the association installs for them (referential property,
+    referential_attributes, key maps) is keyed by those names, while the instance is created and read under the DECLARED names.  Names are
+    case insensitive, so define_association maps the names it is given onto the declared spelling of the class they belong to - otherwise
+    one attribute gets two cells (the stored default under the declared spelling, the link-computed value under the association's)."""
+    from .common import declared_spelling, resolve_locals
+    repo = ctx.repo
+    r = ctx.rule('C10-KEYSPELL', 'association keys are mapped onto the declared spelling of the class they belong to', floor=2,
+                 oracle='Class.__getattr__ / MetaClass.new address attributes by the declared spelling')
+    Q = 'xtuml.meta:MetaModel.define_association'
+    fn = repo.nfunc(Q)
+    calls = [n for n in ast.walk(fn) if isinstance(n, ast.Call) and dotted(n.func) == 'Association']
+    if len(calls) != 1:
+        raise AnalysisError('%s: define_association does not construct exactly one Association' % loc(fn))
+    init = repo.func('xtuml.meta:Association.__init__')
+    from ..src import bind_call
+    b = bind_call(calls[0], init)
+    mc_of = {}
+    for n in ast.walk(fn):
+        if isinstance(n, ast.Assign) and len(n.targets) == 1 and isinstance(n.targets[0], ast.Name) and isinstance(n.value, ast.Call) and \
+                call_attr(n.value) == 'find_metaclass' and n.value.args:
+            mc_of[n.targets[0].id] = src(n.value.args[0])
+    for field, kind_param in (('source_keys', 'source_kind'), ('target_keys', 'target_kind')):
+        e = b.get(field)
+        if e is None:
+            raise AnalysisError('%s: Association(...) gets no %s' % (loc(calls[0]), field))
+        v = resolve_locals(fn, e)
+        d = declared_spelling(v)
+        ok = False
+        if d is not None:
+            keys, mc = d
+            mc_s = src(mc)
+            kind_s = mc_of.get(mc_s) or (src(mc.args[0]) if isinstance(mc, ast.Call) and call_attr(mc) == 'find_metaclass' and mc.args else None)
+            ok = src(keys) == field and kind_s == kind_param
+        r.check(ok, '%s are mapped onto the spelling declared by %s' % (field, kind_param), calls[0], construct=Q, key='declared ' + field,
+                msg='define_association hands `%s` to the Association as %s: the names stay as the caller spelled them, while instances are created and read '
+                    'under the spelling the class declares; for a key spelled in another letter case the referential property and the stored attribute '
+                    'are two cells with two values (b.a_id navigates, b.A_Id returns the stored default)' % (src(v)[:80], field))
 
 
 class Elem(object):
